@@ -425,6 +425,17 @@ class Body:
         """blocks on the error arm of `?`: the block calling FromResidual::from_residual"""
         return {i for i, t in self.calls(r"FromResidual.*::from_residual|from_residual")}
 
+    def err_return_blocks(self):
+        """blocks that build the function's own `Err(..)` result (explicit `return Err(..)` / tail `Err(..)`)"""
+        out = set()
+        for i, b in enumerate(self.blocks):
+            if b.get("cleanup"):
+                continue
+            for s in b["s"]:
+                if s["k"] == "assign" and s["lhs"]["l"] == 0 and not s["lhs"].get("p") and s["rv"]["k"] == "agg" and s["rv"].get("variant") == "Err" and s["rv"].get("adt", "").endswith("Result"):
+                    out.add(i)
+        return out
+
     def panic_blocks(self):
         """blocks that diverge by an explicit panic call (no target)"""
         out = set()
